@@ -226,16 +226,18 @@ CLAIMED['C12'] = dict(
          'sub-documents and each sub-document element of arrays) and an exclusion removes exactly '
          'the named paths; $slice keeps the stated contiguous part and $elemMatch exactly the '
          'first accepted element; the list form equals the dict form; the separately coded '
-         'aggregate-path projection equals the find-path one on the common domain. The unrestricted '
-         'statements are refuted on witnesses (arrays mixing scalars and sub-documents, exclusion '
-         'under a scalar, $slice corner cases). Tie: documents with nested sub-documents, arrays '
+         'aggregate-path projection equals the find-path one on the common domain. D holds scope '
+         'limits of the specification only (no condition on the document: arrays mixing scalars, '
+         'sub-documents and nested arrays, and paths running into scalars are inside); the six '
+         'defects that used to restrict it were repaired in /repo and their witnesses are replayed '
+         'as ordinary cases on every run. Tie: documents with nested sub-documents, arrays '
          'of sub-documents and mixed arrays x a projection grammar go through find, find_one, '
          'find_one_and_update/replace/delete (both return modes) and aggregate $project and are '
          'compared with Impl and Spec; directly on python every result must be a sub-document of '
          'the stored one and counts/order equal the unprojected query.',
-    note='Known findings (6): mixedarray, exclscalar, aggdroparr, slicelimit, sliceskip, '
-         'slicealone (argmutated was fixed). Computed $project fields, positional projection and mixed '
-         'include/exclude are out of scope.')
+    note='No known finding left (mixedarray, exclscalar, aggdroparr, slicelimit, sliceskip, '
+         'slicealone, argmutated were fixed in /repo). Computed $project fields, positional '
+         'projection and mixed include/exclude are out of scope.')
 
 CLAIMED['C06'] = dict(
     technique='Lean 4 invariant (no two covered documents with equal index keys) preserved by '
@@ -514,6 +516,48 @@ CLAIMED['C16'] = dict(
          'and the correspondence. $group, $graphLookup, $bucket and expression operators are '
          'outside the modelled fragment (direct oracles only). Known findings: sample-pops-size, '
          'facet-sibling-nested-addfields, facet-sibling-lookup, literal-written.')
+
+CLAIMED['C03'] = dict(
+    technique='Lean 4 theorems about a model of process_pipeline and the stage handlers '
+              '(aggregate.py): a pipeline is the fold of its stages, each stage is the function '
+              'the property names (find-path agreement, permutation / sublist / flat-map / '
+              'partition laws), model = oracle on a decidable domain; tied to the code by '
+              'pipeline correspondence and direct find-path, partition, join and prefix oracles',
+    text='Lean 4 theorems about MongoModel/Pipeline.lean (runPipeline, runStage over the raw stage '
+         'documents; $match $sort $skip $limit $count $project $group $bucket $unwind $lookup '
+         '$addFields/$set $replaceRoot $facet; reusing the models of the matcher, sort, '
+         'projection and expressions) for every pipeline and every collection content: '
+         'runPipeline (p ++ q) is q run on the output of p, and equals the monadic fold of '
+         'runStage; a facet branch is runPipeline of that branch on the same input; $match is '
+         'exactly find\'s selection (a sublist, same matcher as C10); any $sort answer is a '
+         'permutation of its input and on the C11 domain equals the cursor sort; $skip / $limit '
+         'are drop / take; $count is the length (= count_documents); flag-only $project equals '
+         'the find projection on the common domain; $group covers its input exactly once (group '
+         'sizes sum to the input length, every output is accumulate + _id), on scalar non-bool '
+         'keys the keys are pairwise distinct and each group is the filter of the input by key '
+         'in input order; $push $first $last $sum(int) equal the plain folds; $bucket covers the '
+         'input once and classifies by the largest boundary <= the value; $unwind is a flat map '
+         '(one output per element with the field replaced; missing / null / empty handling); '
+         '$lookup gives one output per input whose as-field is exactly the matcher-accepted '
+         'foreign documents in foreign order and changes nothing else; $addFields and '
+         '$replaceRoot preserve length and order and output i depends on input i only; on the '
+         'domain D the model returns what the oracle Spec/Pipeline.lean says for $match $sort '
+         '$skip $limit $count $project(flags) $unwind; five full-strength statements are refuted '
+         'by kernel-checked witnesses that are known findings. Tie: pipelines of 1-5 stages from '
+         'a stage grammar reusing the filter and expression generators, over documents sharing '
+         'a schema (groups with several members, arrays to unwind, join keys that hit and miss) '
+         'and a second collection for $lookup; exact output of list(aggregate(p)) on /repo '
+         'against the compiled model, against the oracle in D, and direct python oracles: '
+         'match = find, sort = find.sort, skip/limit = slice, count = count_documents, project = '
+         'find projection, group = plain partition, lookup = plain join, and the prefix law '
+         'aggregate(p ++ q) = aggregate(q) over the output of p stored in a fresh collection.',
+    note='No "= Spec" equation for $group as a whole, $lookup, $addFields, $replaceRoot, $bucket, '
+         '$facet (structural theorems plus python oracles); accumulator equations for $push '
+         '$first $last $sum(int) only; group_partition_partial restricted to scalar non-bool '
+         'keys. $sample, $out, $graphLookup are unmodelled here (C16 covers $sample/$out); '
+         'pipelines whose in-place edits can alias (about 12% of cases, static predicate '
+         'aliasRisk) are outside the value-level model and covered by the python oracles and by '
+         'C16. 15 known findings (countempty, groupfalsyid, addtosetfalsy, firstmissing, ...).')
 
 PENDING = {
     'C02': 'model (MongoModel/Update.lean) and correspondence exist; theorems not yet proved',
